@@ -255,6 +255,37 @@ func (c *ctx) refConn(d model.Doc, i int) {
 			break
 		}
 	}
+	// C10 soundness over the whole stream: an authentication PASS on the wire must be the
+	// answer to a request (same session, next sequence number); a PASS nobody asked for is
+	// read by the client as the verdict of whatever it sends next
+	framed := true // the client sends only whole, unmodified packets: headers on the wire are those of the script
+	for _, o := range cs.Ops {
+		if o.Kind == "raw" || (o.Kind == "send" && (o.Pkt.FlipBit != nil || o.Pkt.Trunc != nil || o.Pkt.LenOverride != nil)) {
+			framed = false
+		}
+	}
+	for n, rp := range replies {
+		if n >= goodWrites || !framed {
+			break
+		}
+		if rp.H.Type != model.TypeAuthen || int(rp.H.Length) != len(rp.Body) {
+			continue
+		}
+		v, err := model.DecodeAuthenReply(model.Obfuscate(rp.H, srvKey, rp.Body))
+		if err != nil || v.Status != model.AuthenPass {
+			continue
+		}
+		asked := false
+		for _, o := range cs.Ops {
+			if o.Kind == "send" && o.Pkt.Session == rp.H.Session && o.Pkt.Seq != 255 && o.Pkt.Seq+1 == rp.H.Seq {
+				asked = true
+				break
+			}
+		}
+		if !asked {
+			c.vs("C10/pass-without-basis", "unsolicited", "conn %d: the server wrote PASS %s although no request of that session carries the preceding sequence number (a second reply to an exchange that was already answered)", id, hstr(rp.H))
+		}
+	}
 	k, g := 0, 0
 	before := len(c.out)
 	for _, pr := range preds {
